@@ -80,10 +80,14 @@ class F12(protocol_base.IrProtocolBase):
             self._saved_code = code
             raise RepeatLeadInError
 
-        if code != self._saved_code:
-            raise DecodeError
+        saved_code, self._saved_code = self._saved_code, None
 
-        code = self._saved_code + code
+        if code != saved_code:
+            # first frame of a different key: start over with it
+            self._saved_code = code
+            raise RepeatLeadInError
+
+        code = saved_code + code
 
         if self._last_code is not None:
             if self._last_code == code:
